@@ -32,6 +32,8 @@ func C02(c *Ctx) {
 	r.Rule("R02.2", "counter writers: every store to an InterchainCounter/ReceiptCounter/SourceInterchainCounter/SourceReceiptCounter element is in a function reachable only from HandleIBTP (static call graph of the contracts package), never from another dispatchable entry; the request counter is advanced by exactly one (counter[k] = counter[k] + 1).")
 	r.Rule("R02.3", "processing only after the checks: in HandleIBTP, ProcessIBTP and notifySrcDst lie behind the no-error edges of checkIBTP and of begin/reportTransaction; notifySrcDst is called once (not in a loop) and posts exactly one interchain event per call.")
 	r.Rule("R02.4", "coherent counter updates: the (from, to, index) triple handed to setDestInterchain comes from one source - the three fields of one IBTP or the three results of one ParseIBTPID call - so a pair's counter is never set from another pair's index.")
+	r.Rule("R02.5", "record windows do not overlap: between loading an interchain record (getInterchain, or receiving it as a parameter) and writing it back (setInterchain, directly or in a helper that receives it), no other interchain record is written; the keys of two records are run-time values that may coincide (source == destination), and then the later write-back restores the stale copy, dropping the counter increment - the index would be accepted twice.")
+	c.c02Windows()
 	r.NotDecided = append(r.NotDecided, "that the counters equal the number of accepted IBTPs over a history; block packing; unordered (batch) destinations are outside the property's 'ordered pair' scope")
 
 	check := c.fn("R02.1", imPrefix+"checkIBTP")
@@ -471,4 +473,115 @@ func indexGuardWrapper(g, ci *ssa.Function) (bool, int, *ssa.Call) {
 		}
 	}
 	return true, batch, inner
+}
+
+// c02Windows: R02.5 - the read-modify-write windows of two interchain records do not overlap.
+func (c *Ctx) c02Windows() {
+	r := c.R
+	m := c.Contracts()
+	isSet := func(call ssa.CallInstruction) bool {
+		return strings.HasSuffix(core.CalleeName(call), "InterchainManager).setInterchain")
+	}
+	// setsRecord[fn]: fn (transitively, within the contracts package) calls setInterchain
+	sets := map[*ssa.Function]bool{}
+	for changed := true; changed; {
+		changed = false
+		for _, fn := range m.funcs {
+			if sets[fn] {
+				continue
+			}
+			for _, call := range core.Calls(fn) {
+				g := core.StaticCallee(call)
+				if isSet(call) || g != nil && sets[g] && !strings.HasSuffix(core.FnName(g), "InterchainManager).setInterchain") {
+					sets[fn], changed = true, true
+					break
+				}
+			}
+		}
+	}
+	isRecord := func(v ssa.Value) bool { return strings.HasSuffix(v.Type().String(), "pb.Interchain") }
+	n := 0
+	for _, fn := range m.funcs {
+		if len(fn.Blocks) == 0 || strings.HasSuffix(core.FnName(fn), "InterchainManager).setInterchain") {
+			continue
+		}
+		// windows: (start point, record value)
+		type window struct {
+			start core.Point
+			v     ssa.Value
+			what  string
+			pos   token.Pos
+		}
+		var ws []window
+		for _, p := range fn.Params {
+			if isRecord(p) {
+				ws = append(ws, window{core.EntryOf(fn), p, "parameter " + p.Name(), fn.Pos()})
+			}
+		}
+		for _, call := range core.Calls(fn) {
+			if call.Value() == nil || call.Value().Referrers() == nil {
+				continue
+			}
+			what := "record loaded by " + shortCallee(call)
+			if isRecord(call.Value()) {
+				ws = append(ws, window{core.After(call), call.Value(), what, call.Pos()})
+			}
+			for _, ref := range *call.Value().Referrers() {
+				if ex, ok := ref.(*ssa.Extract); ok && isRecord(ex) {
+					ws = append(ws, window{core.After(call), ex, what, call.Pos()})
+				}
+			}
+		}
+		if len(ws) == 0 {
+			continue
+		}
+		passes := func(call ssa.CallInstruction, v ssa.Value) bool {
+			for _, a := range call.Common().Args {
+				if core.Strip(a) == v || core.Mentions(a, func(x ssa.Value) bool { return x == v }) {
+					return true
+				}
+			}
+			return false
+		}
+		for wi, w := range ws {
+			// closing sites: the record is written back (directly or by a helper that receives it and sets records)
+			closes := func(in ssa.Instruction) bool {
+				call, ok := in.(ssa.CallInstruction)
+				if !ok || !passes(call, w.v) {
+					return false
+				}
+				g := core.StaticCallee(call)
+				return isSet(call) || g != nil && sets[g]
+			}
+			if len(sites(fn, closes)) == 0 {
+				continue // read-only use of the record
+			}
+			n++
+			foreign := func(in ssa.Instruction) bool {
+				call, ok := in.(ssa.CallInstruction)
+				if !ok || passes(call, w.v) {
+					return false
+				}
+				g := core.StaticCallee(call)
+				return isSet(call) || g != nil && sets[g]
+			}
+			inside := core.Reach([]core.Point{w.start}, closes, nil)
+			bad := ""
+			for _, f := range sites(fn, foreign) {
+				if !inside.Has(f) {
+					continue
+				}
+				after := core.Reach([]core.Point{core.After(f)}, nil, nil)
+				for _, cl := range sites(fn, closes) {
+					if after.Has(cl) {
+						bad = c.P.Pos(f.Pos())
+					}
+				}
+			}
+			key := fmt.Sprintf("%s: window of %s #%d holds no other record write", shortFn(fn), w.what, wi)
+			r.Check(bad == "", "R02.5", key, c.P.Pos(w.pos), "no other interchain record is written between loading this record and writing it back",
+				"another interchain record is written at "+bad+" while this record is held loaded and is written back afterwards: when both keys name the same service (a pair with source == destination) the later write restores the stale copy and the counter update of the first write is lost - the same index is accepted again")
+		}
+	}
+	r.Floor("R02.5", "read-modify-write windows of interchain records", n, 3)
 }
